@@ -1,0 +1,43 @@
+package scope
+
+import "sync"
+
+// taskCounter counts the tasks (and child scopes) a scope waits for. Unlike sync.WaitGroup it
+// may be incremented while a waiter is being released: a task added after the wait returned is
+// simply not waited for by that wait.
+type taskCounter struct {
+	mu      sync.Mutex
+	cond    *sync.Cond
+	counter int
+}
+
+// Add adds delta (which may be negative) to the counter
+func (tc *taskCounter) Add(delta int) {
+	tc.mu.Lock()
+	defer tc.mu.Unlock()
+	tc.counter += delta
+	if tc.counter < 0 {
+		tc.counter -= delta
+		panic("scope: negative task counter")
+	}
+	if tc.counter == 0 && tc.cond != nil {
+		tc.cond.Broadcast()
+	}
+}
+
+// Done decrements the counter by one
+func (tc *taskCounter) Done() {
+	tc.Add(-1)
+}
+
+// Wait blocks until the counter is zero
+func (tc *taskCounter) Wait() {
+	tc.mu.Lock()
+	defer tc.mu.Unlock()
+	if tc.cond == nil {
+		tc.cond = sync.NewCond(&tc.mu)
+	}
+	for tc.counter != 0 {
+		tc.cond.Wait()
+	}
+}
